@@ -128,7 +128,9 @@ HexahedralMeshTopologyKernel::add_cell(std::vector<HalfFaceHandle> _halffaces, b
 #ifndef NDEBUG
             std::cerr << "The current halfface is invalid!" << std::endl;
 #endif
-            continue;
+            // The list does not describe a hexahedron: reject it instead of
+            // passing an invalid handle on to the re-ordered list.
+            return TopologyKernel::InvalidCellHandle;
         }
         ordered_halffaces[orderTop[idx]] = ahfh;
         ++idx;
